@@ -7,7 +7,7 @@ use winter_air::{Air, AirContext, Assertion, BoundaryConstraintGroup, BoundaryCo
 use winter_math::fields::{f128, f62, f64, QuadExtension};
 use winter_math::FieldElement;
 
-use crate::util::{catalogue, label, merge_all, options, tiny_air, trace_domain, Base, Desc, Kind, Sweep, W};
+use crate::util::{catalogue, guarded, label, masks_meet, Mask, merge_all, options, tiny_air, trace_domain, Base, Desc, Kind, Sweep, W};
 
 fn ctx<B: Base>(cols: usize, n: usize, num_assertions: usize) -> AirContext<B> {
     AirContext::new(TraceInfo::new(cols, n), vec![TransitionConstraintDegree::new(1)], num_assertions, options(2))
@@ -243,22 +243,21 @@ fn check_perms<B: Base>(fname: &str, n: usize, cols: usize, list: &[Desc], asser
     }
 }
 
-fn disjoint(n: usize, a: &Desc, b: &Desc, ma: u128, mb: u128) -> bool {
-    let _ = n;
-    a.col != b.col || (ma & mb) == 0
+fn disjoint(a: &Desc, b: &Desc, ma: &Mask, mb: &Mask) -> bool {
+    a.col != b.col || !masks_meet(ma, mb)
 }
 
 /// all pairwise-disjoint subsets of size 2..=max_k of the catalogue (indices increasing), the
 /// first index sharded
 fn perm_sweep<B: Base>(fname: &'static str, n: usize, cols: usize, cat: &[Desc], max_k: usize, via_air_pairs: bool) -> Sweep {
     let asserts: Vec<Assertion<B>> = cat.iter().map(|d| d.build::<B>().unwrap()).collect();
-    let masks: Vec<u128> = cat.iter().map(|d| d.step_mask(n)).collect();
+    let masks: Vec<Mask> = cat.iter().map(|d| d.step_mask(n)).collect();
     let dom = trace_domain::<B>(n);
     let m = cat.len();
-    let parts = mck::par_map(m, |i| {
+    let parts = mck::par_map(m, |i| guarded("C22", || {
         let mut s = Sweep::new();
         let ctxs: Vec<AirContext<B>> = (0..=max_k).map(|k| ctx::<B>(cols, n, k.max(1))).collect();
-        let ok = |x: usize, y: usize| disjoint(n, &cat[x], &cat[y], masks[x], masks[y]);
+        let ok = |x: usize, y: usize| disjoint(&cat[x], &cat[y], &masks[x], &masks[y]);
         for j in i + 1..m {
             if !ok(i, j) {
                 continue;
@@ -284,7 +283,7 @@ fn perm_sweep<B: Base>(fname: &'static str, n: usize, cols: usize, cat: &[Desc],
             }
         }
         s
-    });
+    }));
     merge_all(parts)
 }
 
@@ -303,7 +302,7 @@ fn assertion_sweep<B: Base, E: FieldElement<BaseField = B>>(fname: &'static str,
     let cat = catalogue(n, 1);
     let dom = trace_domain::<B>(n);
     let chunks = 64.min(cat.len());
-    let parts = mck::par_map(chunks, |c| {
+    let parts = mck::par_map(chunks, |c| guarded("C22", || {
         let mut s = Sweep::new();
         for (i, d) in cat.iter().enumerate() {
             if i % chunks == c {
@@ -311,7 +310,7 @@ fn assertion_sweep<B: Base, E: FieldElement<BaseField = B>>(fname: &'static str,
             }
         }
         s
-    });
+    }));
     merge_all(parts)
 }
 
